@@ -22,7 +22,8 @@ RULE = ("pairs of documents (maps with nested maps/lists) defining and aliasing 
         "(optionally pre-existing A1_1 / A2_1 / A1_2 in either document to provoke rename collisions), values from a small "
         "pool in several spellings (x 'x' \"x\", 1 0x1 '1', true) so that equal-name/"
         "equal-value, equal-name/different-value and disjoint cases all occur; x anchor policies {stop, left, right, "
-        "rename} x a sample of the C05 merge policies. Non-trivial = at least one anchor name is defined in both "
+        "rename} x a sample of the C05 merge policies; also three to five documents absorbed in turn by one Merger, compared "
+        "with a fresh Merger per step. Non-trivial = at least one anchor name is defined in both "
         "documents; distinct by (L, R, anchor policy, merge policies)")
 ASSUMPTIONS = ["scalar anchors only (the statement's scope); anchors are defined before they are aliased",
                "the data expectation uses the library's own merge on anchor-free twins: a defect common to both would be missed here (C05 covers merge policies)"]
@@ -30,7 +31,7 @@ REACH = [("yamlpath/merger/merger.py", "_resolve_anchor_conflicts,_calc_unique_a
          ("yamlpath/common/anchors.py", "scan_for_anchors,rename_anchor,replace_anchor", "Anchors.scan/rename/replace")]
 SIZES = {"quick": 30000, "thorough": 800000}
 REQUIRED_COUNTERS = ["conflict_cases", "equal_value_cases", "reload_checked", "stop_refused", "equal_value_other_spelling_cases",
-                     "rhs_defines_rename_target_name"]
+                     "rhs_defines_rename_target_name", "sequence_cases"]
 VALS = ["x", "y", "1", "2", "'x'", '"x"', "0x1", "'1'", '"y"', "0x2", "true"]
 NAMES = ["A1", "A2", "A3"]
 EXTRA_NAMES = ["A1_1", "A2_1", "A1_2"]       # what a rename of A1 / A2 would like to call itself
@@ -75,7 +76,9 @@ def gen(rng, extra_name=False):
             return scalar()
         if x < 0.8:
             return ("map", [(k, node(depth + 1)) for k in rng.sample(KEYS, rng.randrange(1, 4))])
-        return ("seq", [scalar() for _ in range(rng.randrange(1, 4))])
+        # list elements: scalars, or lists again (aliases inside an Array nested directly in an Array)
+        return ("seq", [scalar() if rng.random() < 0.75 else ("seq", [scalar() for _ in range(rng.randrange(1, 3))])
+                        for _ in range(rng.randrange(1, 4))])
     t = ("map", [(k, node(1)) for k in rng.sample(KEYS, rng.randrange(2, 5))])
     return t, defined
 
@@ -214,6 +217,63 @@ def run_case(ctx, lt, ldefs, rt, rdefs, policy, combo):
             pass
 
 
+def run_sequence(ctx, texts, policy, combo):
+    """ONE Merger absorbing several right-hand documents in turn must end where a fresh Merger per step ends
+    (each step resolves anchor conflicts against the document accumulated so far)."""
+    case = {"lhs": texts[0], "rhs_sequence": texts[1:], "anchors": policy, "policies": combo}
+    ns = SimpleNamespace(hashes=combo[0], arrays=combo[1], aoh=combo[2], sets=combo[3], anchors=policy)
+    ctx.evaluations += 1
+    ctx.counters["sequence_cases"] = ctx.counters.get("sequence_cases", 0) + 1
+    try:
+        acc = yp.load(texts[0])
+        for t in texts[1:]:
+            m = Merger(LOG, acc, MergerConfig(LOG, ns))
+            m.merge_with(yp.load(t))
+            acc = m.data
+        exp, exp_err = acc, None
+    except (MergeException, YAMLPathException) as e:
+        exp, exp_err = None, e
+    except yp.LoadError:
+        return
+    except Exception:
+        ctx.count("stepwise_fold_crashed")
+        return
+    try:
+        m = Merger(LOG, yp.load(texts[0]), MergerConfig(LOG, ns))
+        for t in texts[1:]:
+            m.merge_with(yp.load(t))
+        got, raised = m.data, None
+    except (MergeException, YAMLPathException) as e:
+        got, raised = None, e
+    except Exception as e:
+        ctx.violation("sequence/crash/%s" % type(e).__name__, {"case": case, "summary": "%s: %s" % (type(e).__name__, str(e)[:150])})
+        return
+    if (raised is None) != (exp_err is None):
+        ctx.violation("sequence/%s/%s" % ("refused-but-stepwise-merges" if raised else "merged-but-stepwise-refuses", policy), {
+            "case": case, "summary": str(raised or exp_err)[:200]})
+        return
+    if raised is not None:
+        return
+    ctx.mark_nontrivial([texts, policy, combo])
+    if norm(yp.plain(got)) != norm(yp.plain(exp)):
+        ctx.violation("sequence/data-differs/%s" % policy, {"case": case, "summary": "one Merger %r ; a Merger per step %r" % (
+            yp.dump(got)[:250], yp.dump(exp)[:250])})
+        return
+    for n, nodes in anchored_nodes(got).items():
+        vals = {repr(yp.scalar_plain(x)) if not yp.is_container(x) else "container" for x in nodes}
+        if len(vals) > 1:
+            ctx.violation("sequence/one-name-two-values/%s" % policy, {"case": case, "summary": "anchor %s holds %r ; dump=%r" % (
+                n, sorted(vals), yp.dump(got)[:300])})
+            return
+    try:
+        back = yp.load(yp.dump(got))
+    except yp.LoadError as e:
+        ctx.violation("sequence/does-not-reload/%s" % policy, {"case": case, "summary": "%r: %s" % (yp.dump(got)[:300], str(e)[:100])})
+        return
+    if norm(yp.plain(back)) != norm(yp.plain(got)):
+        ctx.violation("sequence/reload-differs/%s" % policy, {"case": case, "summary": yp.dump(got)[:300]})
+
+
 def norm(p):
     if p[0] == "map":
         return ("map", tuple(sorted(((repr(k), norm(v)) for k, v in p[1]), key=lambda kv: kv[0])))
@@ -248,6 +308,12 @@ def run_shard(ctx):
             pass
         for pol in POLICIES:
             run_case(ctx, lt, ldefs, rt, rdefs, pol, rng.choice(MERGE_SAMPLE))
+        if rng.random() < 0.3:
+            texts = [gd.render(lt), gd.render(rt)] + [gd.render(gen(rng)[0]) for _ in range(rng.choice([1, 1, 2]))]
+            if rng.random() < 0.5:
+                texts.append(texts[0])        # a later document repeating the first one's anchors and values
+            for pol in POLICIES:
+                run_sequence(ctx, texts, pol, rng.choice(MERGE_SAMPLE))
         n += 1
         if n <= 2:
             ctx.sample({"lhs": gd.render(lt), "rhs": gd.render(rt)})
